@@ -562,6 +562,13 @@ def apply(ex, ctx, st, f, args, dest_ty, term):
     if int_method('saturating_sub'):
         a, b = args
         ty = ty_of(a)
+        if is_signed(ty):
+            if INT_BITS[ty] > 32:
+                raise Uncertified("saturating_sub on %s" % ty)
+            lo_, hi_ = -(1 << (INT_BITS[ty] - 1)), (1 << (INT_BITS[ty] - 1)) - 1
+            d_ = mk_bin('Sub', mk_cast(a, 'i64'), mk_cast(b, 'i64'), 'i64', 'i64')
+            return mk_ite(mk_bin('Lt', d_, C(lo_, 'i64'), 'i64', 'bool'), C(lo_, ty),
+                          mk_ite(mk_bin('Gt', d_, C(hi_, 'i64'), 'i64', 'bool'), C(hi_, ty), mk_cast(d_, ty))), st
         return mk_ite(mk_bin('Lt', a, b, ty, 'bool'), C(0, ty), mk_bin('Sub', a, b, ty, ty)), st
     if int_method('saturating_add'):
         a, b = args
@@ -801,6 +808,8 @@ def apply(ex, ctx, st, f, args, dest_ty, term):
     if int_method('abs_diff'):
         a, b = args
         ty = ty_of(a)
+        if is_signed(ty):
+            raise Uncertified("abs_diff on a signed type (the result is of the unsigned type)")
         return mk_ite(mk_bin('Lt', a, b, ty, 'bool'), mk_bin('Sub', b, a, ty, ty), mk_bin('Sub', a, b, ty, ty)), st
     if path in ('core::cmp::max', 'core::cmp::min', 'core::cmp::Ord::max', 'core::cmp::Ord::min') or \
             (path.startswith('core::cmp::impls::<impl core::cmp::Ord for ') and name in ('max', 'min')):
